@@ -104,7 +104,7 @@ var glslBackend = textBackend{
 	outOfScope: glslUB,
 	cfg: func() wgen.Config {
 		// glsl-safe profile: no run-time divisors, no signed remainder (GLSL leaves both undefined on some operands)
-		return wgen.Config{Off: wgen.SafeOff("div.runtime-divisor", "op.%.i32", "fn.select.vec-cond", "attr.align", "uniform.matCx2", "fn.atomicSub", "cmp.folded-through-let", "stmt.continue-in-switch")}
+		return wgen.Config{Off: wgen.SafeOff("div.runtime-divisor", "op.%.i32", "fn.select.vec-cond", "attr.align", "uniform.matCx2", "fn.atomicSub", "stmt.continue-in-switch")}
 	},
 	nopt:    func(th bool) int { return len(glslOptionSets(th)) },
 	optName: func(th bool, i int) string { return glslOptionSets(th)[i].name },
